@@ -23,6 +23,7 @@ defects of the pinned tree show up).
 import numpy as np
 
 from vf import gen as G
+from vf import lib_potopts as P
 
 PROPERTY = "C10"
 TECHNIQUE = ("runtime monitoring; differential oracle (eager vs lazy), per-member decomposition oracle and list-slicing "
@@ -31,7 +32,8 @@ RULE = ("cells 3-5 A with 1-4 atoms, grids 6-14, 1-8 slices (scalar or sequence 
         "Potential with single atoms / FrozenPhonons (1-4 configurations) / AtomsEnsemble (2-4), infinite or finite "
         "projection; PotentialArray numpy- or dask-backed with or without ensemble axis; CrystalPotential with repetitions "
         "(1-2, 1-2, 1-3) over a Potential, PotentialArray or frozen-phonon unit, seeds none / tuple of 1-3 / "
-        "num_frozen_phonons; all windows 0 <= a < b <= n per case, up to 8 windowed builds in both modes; non-trivial = at "
+        "num_frozen_phonons; about half of the cases with non-default constructor arguments (parametrization objects with "
+        "sigmas, custom Quadrature / ScatteringFactor / Gaussian integrators); all windows 0 <= a < b <= n per case, up to 8 windowed builds in both modes; non-trivial = at "
         "least 2 slices and (at least 2 ensemble members or at least 3 slices); distinct = distinct case signature")
 CLAUSES = ["eager-vs-lazy", "member-eager", "member-lazy", "crystal-member-structure", "window-slices", "window-open-end",
            "exit-plane-flags", "window-build-eager", "window-build-lazy", "window-build-eager-vs-lazy"]
@@ -87,6 +89,9 @@ def gen(rng, tier):
             "atoms_kind": str(rng.choice(["single", "frozen", "frozen", "ensemble"])),
             "num_configs": int(rng.integers(1, 5)), "fp_seed": int(rng.integers(0, 10000)), "sigma": float(rng.uniform(0.05, 0.2)),
             "win_seed": int(rng.integers(0, 2 ** 31))}
+    # (periodic=False is left to C08: there frozen-phonon displacements are drawn for the padded, unwrapped structure, so
+    # "member k == potential of configuration k alone" is not what that flag promises)
+    case["opts"] = P.gen(rng, case["projection"], cell["symbols"], allow=("sigmas", "integrator"), cheap=True)
     if kind == "crystal":
         reps = [int(rng.integers(1, 3)), int(rng.integers(1, 3)), int(rng.integers(1, 4))]
         st, n = _thickness(rng, cell["cell"][2], max(1, 9 // reps[2]))
@@ -124,6 +129,15 @@ def fixed_cases(tier):
         dict(base, kind="crystal", atoms_kind="single", unit="potential", reps=[1, 1, 2], seeds=None),
         dict(base, kind="crystal", atoms_kind="frozen", unit="frozen", reps=[1, 2, 2], seeds=[3, 4]),
         dict(base, kind="crystal", atoms_kind="frozen", unit="frozen-array", reps=[2, 1, 2], seeds={"num": 2, "seed": 5}),
+        # non-default constructor arguments must survive the reconstruction of the potential inside lazy tasks
+        dict(base, kind="potential", atoms_kind="frozen", projection="finite", num_configs=2,
+             opts={"sigmas": {"Si": 0.3, "C": 0.2, "O": 0.1}}),
+        dict(base, kind="potential", atoms_kind="frozen", opts={"sigmas": {"Si": 0.3}, "integrator": {"type": "scattering"}}),
+        dict(base, kind="potential", atoms_kind="ensemble", projection="finite",
+             opts={"integrator": {"type": "quadrature", "cutoff_tolerance": 1e-3, "taper": 0.7, "integration_step": 0.05,
+                                  "quad_order": 4, "inner_cutoff_factor": 3.0}}),
+        dict(base, kind="crystal", atoms_kind="frozen", unit="frozen", reps=[1, 2, 2], seeds=[3, 4],
+             opts={"sigmas": {"Si": 0.3, "O": 0.2}}),
     ]
 
 
@@ -158,8 +172,10 @@ def _configurations(case):
 def _potential(case, atoms, exit_planes="case"):
     import abtem
     ep = _ep_arg(case["exit_planes"]) if exit_planes == "case" else exit_planes
+    # case["opts"]: non-default constructor arguments (parametrization with sigmas, custom integrators);
+    # new parametrization / integrator objects for every potential
     return abtem.Potential(atoms, gpts=tuple(case["gpts"]), slice_thickness=_st_arg(case["slice_thickness"]),
-                           projection=case["projection"], exit_planes=ep)
+                           exit_planes=ep, **P.kwargs(case.get("opts"), case["projection"], "lobato"))
 
 
 def _np(x):
@@ -179,6 +195,8 @@ def _call(ctx, clause, fn, **detail):
 
 
 def _rtol(case):
+    if P.single_precision(case.get("opts")):
+        return 2e-5
     # both sides run the same arithmetic; only the FFT planning of eager and threaded lazy execution differs
     # (observed <= 1.4e-13 / 2.8e-7 of max|V| over 1600 thorough cases)
     return 1e-11 if case["precision"] == "float64" else 2e-5
